@@ -430,6 +430,8 @@ class MethodMixin:
                 a, b = set(cell.conc), set(other.conc if other.kind != "dict" else other.conc.keys())
                 r = getattr(a, name)(b)
                 return Cell("set", conc=r, fresh=True) if isinstance(r, set) else r
+            if name in ("intersection", "difference") and isinstance(other, Cell) and other.kind == "set" and len(args) == 1:
+                return self.binop(ast.Sub() if name == "difference" else ast.BitAnd(), cell, other)
             raise Unsupported(f"symbolic set.{name}")
         if name in ("discard", "remove"):
             self.mutate(cell, name)
